@@ -1,11 +1,69 @@
-(* C04 - placeholder property file: theorems are added as the corresponding model layer is proved.
-   The decisive oracle today is the extracted specification machine (Spec/Tree.v, Spec/Abs.v, Spec/Wf.v). *)
-From Coq Require Import NArith List.
-From FatVerif Require Import Model.Base Spec.Image Proofs.ImageProofs.
+(* C04 - what a session saw is what is on the disk: remount and independent decode agree.
+   Layer theorems: (1) what the library WRITES for an entry is decoded by the independent specification decoder to
+   exactly that entry (long name, alias, slot positions); (2) the library's READERS agree with the specification on
+   table values and short-name rendering; (3) the byte ranges a file reports as extents hold exactly its content.
+   The composition over whole volumes and sessions is checked on the implementation at every remount point
+   (tools/props/c04.py). *)
+From Coq Require Import NArith ZArith List.
+From FatVerif Require Import Model.Base Model.Str Model.Slot Model.Table Model.Fat Model.Name Model.FileM Model.DirSlots
+  Spec.Image Spec.Abs Spec.ByteFile
+  Proofs.ImageProofs Proofs.TableProofs Proofs.FileProofs Proofs.DirSlotsProofs Proofs.CrossProofs.
 Open Scope N_scope.
 
 Theorem C04_image_write_frame : forall bs im off o,
   (o < off \/ off + N.of_nat (length bs) <= o) -> img_get (img_write im off bs) o = img_get im o.
 Proof. exact img_write_outside. Qed.
 
+(* (1) written entry -> independent decode *)
+Theorem C04_written_entry_decodes : forall n e idx fat32,
+  validate_long_name n = Ok tt -> is_dot_name n = false -> sfn_fields_ok e ->
+  let lfn_slots := map lfn_encode (lfn_entries (utf16_encode n) (lfn_checksum (se_name e))) in
+  let en := mk_entry (rev lfn_slots) (sfn_encode e) idx fat32 in
+  run_valid (rev lfn_slots) (se_name e) = true /\ e_lfn en = utf16_encode n /\ e_lfn_ok en = true /\
+  e_sfn en = se_name e /\ e_first_slot en = idx - len_N lfn_slots /\ e_sfn_slot en = idx.
+Proof. exact written_run_valid. Qed.
+
+(* (2) readers agree with the specification *)
+Theorem C04_fat12_values_agree : forall g v, g_bits g = 12 -> fatv_of (fat_classify g v) = classify12 v.
+Proof. exact classify12_agrees. Qed.
+Theorem C04_fat16_values_agree : forall g v, g_bits g = 16 -> fatv_of (fat_classify g v) = classify16 v.
+Proof. exact classify16_agrees. Qed.
+Theorem C04_fat32_values_agree : forall g c v, g_bits g = 32 -> c < 268435447 ->
+  fatv_of (fat_classify g v) = classify32 c v.
+Proof. exact classify32_agrees. Qed.
+Theorem C04_short_name_render_agrees : forall raw, length raw = 11%nat -> short_name_string raw = sfn_render raw.
+Proof. exact short_name_render_agrees. Qed.
+
+(* (3) extents reproduce the content *)
+Section Extents.
+Variable T : Type.
+Variable get : T -> N -> res fatv.
+Variable set : T -> N -> fatv -> res T.
+Variable val : T -> N -> fatv.
+Variable okc : N -> Prop.
+Variable okv : fatv -> Prop.
+Variable inv : T -> Prop.
+Hypothesis get_val : forall t c, inv t -> okc c -> get t c = Ok (val t c).
+Hypothesis set_ok : forall t c v, inv t -> okc c -> okv v ->
+  exists t', set t c v = Ok t' /\ inv t' /\ val t' c = v /\ forall c', c' <> c -> okc c' -> val t' c' = val t c'.
+Hypothesis okv_free : okv Free.
+Hypothesis okv_eoc : okv Eoc.
+Variable cs total : N.
+Hypothesis Hcs : 0 < cs.
+Hypothesis Hokc : forall x, 2 <= x < total + 2 -> okc x.
+Hypothesis Hokd : forall n, 2 <= n < total + 2 -> okv (Data n).
+
+Theorem C04_extents_reproduce_content : forall w h sz l,
+  WorldInv T val inv cs total w -> FileInv T val cs total w h sz l ->
+  exists ex, file_extents T get cs total w h = Ok ex /\ map fst ex = l /\ ext_total ex = sz /\
+             ext_bytes (w_data T w) ex = content T w l sz /\ forall e, In e ex -> 0 <= snd e <= cs.
+Proof. exact (file_extents_spec T get set val okc okv inv get_val set_ok cs total Hcs Hokc Hokd). Qed.
+End Extents.
+
 Print Assumptions C04_image_write_frame.
+Print Assumptions C04_written_entry_decodes.
+Print Assumptions C04_fat12_values_agree.
+Print Assumptions C04_fat16_values_agree.
+Print Assumptions C04_fat32_values_agree.
+Print Assumptions C04_short_name_render_agrees.
+Print Assumptions C04_extents_reproduce_content.
